@@ -142,10 +142,10 @@ def r3_network_write_once(ctx):
 
 def r4_key_agreement(ctx):
     r = ctx.rule("R4", "SmtMapping::{get,get_with_proof,insert,delete} use key hash_single(stdcode(key)); get decodes what insert encoded")
-    KEY = "tmelcrypt::hash_single(Result::unwrap(stdcode::serialize($2))).0"
+    KEY = "tmelcrypt::hash_single(StdcodeSerializeExt::stdcode($2)).0"
     spec = {
         "get": ("Tree::get", 1, None), "get_with_proof": ("Tree::get_with_proof", 1, None),
-        "insert": ("Tree::insert", 1, "Result::unwrap(stdcode::serialize($3))"),
+        "insert": ("Tree::insert", 1, "StdcodeSerializeExt::stdcode($3)"),
         "delete": ("Tree::insert", 1, None),
     }
     for m, (callee, kpos, vexp) in spec.items():
@@ -212,7 +212,7 @@ def r5_tx_commitment(ctx):
     pushes = q.calls_to(b, "Vec::push")
     r.check(len(pushes) >= 1, "tip908/push", "elements are pushed", "nothing is pushed")
     TX = "elem(TransactionSet::iter($1.transactions))"
-    NOSIGS, FULL = "Transaction::hash_nosigs(%s)" % TX, "Hashable::hash(StdcodeSerializeExt::stdcode(%s))" % TX
+    NOSIGS, FULL = "Transaction::hash_nosigs(%s)" % TX, "tmelcrypt::hash_single(StdcodeSerializeExt::stdcode(%s))" % TX
 
     def strip0(x):
         while x.endswith(".0"):
@@ -228,7 +228,7 @@ def r5_tx_commitment(ctx):
             for c in ctx.prog.closures_of(b):
                 ext = q.calls_to(c, "Vec::extend_from_slice")
                 ss = [sig(c.rec_call(t2, b2)[2][1]) for b2, t2 in ext]
-                r.check(ss == ["Hashable::hash(StdcodeSerializeExt::stdcode(^tx)).0"], "tip908/leaf", "leaf = nosigs_hash ‖ hash(stdcode(tx))", "leaf extension is %s" % ss, "%s:%s" % (c.file, c.line))
+                r.check(ss == ["tmelcrypt::hash_single(StdcodeSerializeExt::stdcode(^tx)).0"], "tip908/leaf", "leaf = nosigs_hash ‖ hash(stdcode(tx))", "leaf extension is %s" % ss, "%s:%s" % (c.file, c.line))
         elif pushed[0] == "var":
             # built in place: the byte sources appended to the pushed vector, in program order
             name = pushed[1]
@@ -262,7 +262,7 @@ def r6_stake_commitment(ctx):
     for bi, t in ins:
         e = b.rec_call(t, bi)
         el = "elem(HashMap::iter($1.stakes))"
-        r.check(sig(e[2][1]) == "Hashable::hash(StdcodeSerializeExt::stdcode(%s.0)).0" % el, "key", "key = hash(stdcode(txhash))", "key = %s" % sig(e[2][1]), b.where(bi))
+        r.check(sig(e[2][1]) == "tmelcrypt::hash_single(StdcodeSerializeExt::stdcode(%s.0)).0" % el, "key", "key = hash(stdcode(txhash))", "key = %s" % sig(e[2][1]), b.where(bi))
         r.check(sig(e[2][2]) == "StdcodeSerializeExt::stdcode(%s.1)" % el, "value", "value = stdcode(doc)", "value = %s" % sig(e[2][2]), b.where(bi))
     defs = q.var_def_exprs(b, "tree")
     s = [sig(d[1]) for d in defs]
